@@ -1248,15 +1248,35 @@ class NpModule:
         cur().event("arr-write", out.buf, out.owner)
         return out
 
+    def isclose(self, a, b, rtol=1e-05, atol=1e-08, **k):
+        """np.isclose for scalars: |a - b| <= atol + rtol * |b| (nan / inf operands are not modelled)"""
+        if k or any(isinstance(x, (VArr, list, tuple)) for x in (a, b)) or isinstance(rtol, Sym) or isinstance(atol, Sym):
+            raise Unsupported("np.isclose outside the scalar form")
+        ta, tb = to_term(a, "real"), to_term(b, "real")
+        rt, at = z3.RealVal(repr(float(rtol))), z3.RealVal(repr(float(atol)))
+        ab = lambda t: z3.If(t >= 0, t, -t)
+        return wrap(ab(ta - tb) <= at + rt * ab(tb))
+
     def logical_and(self, a, b, out=None, **k):
         return self._logical(a, b, lambda x, y: z3.And(x, y), out, **k)
 
     def logical_or(self, a, b, out=None, **k):
         return self._logical(a, b, lambda x, y: z3.Or(x, y), out, **k)
 
-    def isin(self, arr, test, invert=False, **k):
+    def isin(self, arr, test, invert=False, assume_unique=False, **k):
         if not isinstance(arr, VArr):
             raise Unsupported("np.isin on non-array")
+        if k:
+            raise Unsupported("np.isin options")
+        if isinstance(assume_unique, Sym):
+            raise Unsupported("symbolic assume_unique flag")
+        if assume_unique:
+            # numpy: "If True, the input arrays are both assumed to be unique"; an array of voxel labels has repeated values, and on
+            # the sort-based code path the result is then wrong -- the call's precondition is not met and its result is unspecified
+            cur().oblige("np.isin(assume_unique=True) precondition: both inputs have no repeated element (a label array has)", z3.BoolVal(False), structural=True)
+            cur().fresh_n += 1
+            unspec = z3.Function(f"isin_unspecified!{cur().fresh_n}", Vox, B_)
+            return arr.new(unspec(arr.space.x), "bool")
         t = arr.term
         if z3.is_bool(t):
             t = z3.If(t, z3.IntVal(1), z3.IntVal(0))
